@@ -18,14 +18,15 @@ RULE = ('seeded random (x, P, z, H, R): n in 1..20, m in 1..6, cond(P) 1..1e10 i
         'rank-deficient P, duplicate/zero rows in H, correlated R with scale 1e-8..1e8, '
         'overall scale 1e-4..1e4; every case is checked against a 50-digit mpmath '
         'posterior; non-trivial = anything but (diagonal S and n<=2), which is all the '
-        'existing test has; distinct = distinct generator parameters')
+        'existing test has; distinct = distinct generator parameters; plus ambient cases: the same contract on every '
+        'kalman.correct call made by the real filters on seeded schedules')
 ASSUMPTIONS = ['mpmath 50-digit arithmetic is exact relative to float64',
                'rounding bounds: c*eps*cond(S) for mean/innovation, Joseph-form bound for P; '
                'cases with eps*cond(S) > 1e-5 are counted as ill-conditioned-skipped for the '
                'mean/innovation comparison only']
 REQUIRED_OBS = ['post_checked', 'mean_compared', 'innovation_compared', 'sequential_compared',
-                'info_form_compared']
-REQUIRED_CLASSES = {'all': ['well', 'illcond', 'rankdef_P', 'rankdef_H', 'offdiag_S']}
+                'info_form_compared', 'ambient_calls_checked']
+REQUIRED_CLASSES = {'all': ['well', 'illcond', 'rankdef_P', 'rankdef_H', 'offdiag_S', 'ambient']}
 EPS = np.finfo(float).eps
 
 # fixed constants (calibrated on the unchanged tree: worst observed ratio to the
@@ -189,12 +190,45 @@ def gen(case):
 def cases(seed, tier):
     n = 640 if tier == 'quick' else 24000
     classes = ['well', 'illcond', 'rankdef_P', 'rankdef_H', 'offdiag_S', 'scaled_R']
-    return [dict(seed=int(seed) * 1000003 + i, cls=classes[i % len(classes)])
-            for i in range(n)]
+    out = [dict(seed=int(seed) * 1000003 + i, cls=classes[i % len(classes)])
+           for i in range(n)]
+    # ambient: the same contract left installed while the real filters run on seeded schedules, so the
+    # matrices are the ones a navigation filter actually produces (structured H, P spanning many decades)
+    na = 12 if tier == 'quick' else 200
+    out += [dict(seed=int(seed) * 1000003 + 800000 + i, cls='ambient', cost=40) for i in range(na)]
+    return out
+
+
+def run_ambient(case):
+    from pyins import filters, sim
+    import pandas as pd
+    from rv.workloads import schedules
+    S = schedules.build(case['seed'])
+    PENDING.clear()
+    LAST.clear()
+    LAST['oracle'] = True
+    obs = LAST.setdefault('obs', {})
+    err = pd.Series(S['init_err'], index=['north', 'east', 'down', 'VN', 'VE', 'VD', 'roll', 'pitch', 'heading'])
+    try:
+        if case['seed'] % 2 == 0:
+            filters.run_feedback_filter(sim.perturb_pva(S['traj'].iloc[0], err), 5, 1, 0.5, 1.0, S['increments'], S['gyro_model'], S['accel_model'],
+                                        measurements=S['measurements'], time_step=S['time_step'], with_altitude=S['with_altitude'])
+        else:
+            filters.run_feedforward_filter(S['traj'], S['traj'] * 1.0, 5, 1, 0.5, 1.0, S['gyro_model'], S['accel_model'], measurements=S['measurements'],
+                                           increments=S['increments'], time_step=S['time_step'], with_altitude=S['with_altitude'])
+    except Exception as e:
+        return dict(violations=[vio('exception', f'ambient filter run raised {type(e).__name__}: {e}')], obs=obs)
+    n_calls = obs.get('post_checked', 0)
+    obs['ambient_calls_checked'] = n_calls
+    out = [dict(v, message='[ambient, inside a real filter run] ' + v['message']) for v in PENDING[:5]]
+    return dict(violations=out, obs=dict(obs), nontrivial=n_calls > 0, evals=max(1, n_calls), nontrivial_count=max(1, n_calls),
+                sample=dict(cls='ambient', schedule=S['describe'], kalman_correct_calls=n_calls))
 
 
 def run_case(case):
     from pyins import kalman
+    if case['cls'] == 'ambient':
+        return run_ambient(case)
     x, P, z, H, R, sizes = gen(case)
     PENDING.clear()
     LAST.clear()
